@@ -2819,8 +2819,21 @@ def _decided_twice(path):
     """the same boolean test over immutable operands appears twice on the path with different outcomes (NaN-safe: only the
     identical comparison is considered, not comparisons that merely contradict each other over a total order)"""
     seen = {}
+    variants = {}
     for dt, label, bb in path.conds:
-        if dt[0] == "discr" or isinstance(label, tuple):
+        if dt[0] == "discr":
+            # the variant of the same immutable value matched twice: the arms taken must be compatible
+            base = nosite(deep_strip(dt[1]))
+            if _stable_operand(base):
+                names = set(label[1]) if isinstance(label, tuple) else ({label} if isinstance(label, str) else None)
+                if names is not None:
+                    prev = variants.get(base)
+                    now = names if prev is None else (prev & names)
+                    if not now:
+                        return True
+                    variants[base] = now
+            continue
+        if isinstance(label, tuple):
             continue
         c = as_cmp(nosite(deep_strip(dt)))
         if c is None or not (_stable_operand(c[1]) and _stable_operand(c[2])):
